@@ -1,8 +1,10 @@
 """C03 — integer stores accept exactly the type's range and round-trip.
 
 Tie: (a) regeneration: the range tests of _cffi_to_c_SIGNED_FN/_UNSIGNED_FN, their instantiations, the
-_cffi_to_c_int dispatch and the export-table slots are re-extracted from the source text into coq/C03/Gen.v
-and the theorems are re-checked; (b) correspondence: every integer type x every store path (ffi.new, item,
+_cffi_to_c_int dispatch, the export-table slots, and the statements of convert_from_object's integer branches
+and of convert_from_object_fficallback's narrow-result blocks (helper + strict flag, every write and its
+destination, every overflow test, their order) are re-extracted from the source text into coq/C03/Gen.v and
+the theorems (incl. "executed statements = hand model" and "target written only after the checks") re-checked; (b) correspondence: every integer type x every store path (ffi.new, item,
 field, global of a gcc-built helper .so, ABI call argument, API-mode call argument and global of one module
 compiled per run, callback result) x boundary and random values, on the scratch build; the model
 (convert_from_object_int / api_arg / callback_received) is evaluated inside Coq on the same inputs.
@@ -325,7 +327,9 @@ def run(ctx):
     ctx.assumptions += [
         "hand-written model C03/Model.v of convert_from_object's integer branches, _cffi_to_c__Bool and the callback "
         "result path; tied to the code by this run's differential test",
-        "C03/Gen.v regenerated from _cffi_backend.c/_cffi_include.h by tools/props/c03_regen.py + c03_cexpr.py (trusted translator)",
+        "C03/Gen.v regenerated from _cffi_backend.c/_cffi_include.h by tools/props/c03_regen.py + c03_cexpr.py (trusted translator): "
+        "macro range tests, instantiations, dispatch, export table, and the statement sequences of convert_from_object's "
+        "integer branches and of convert_from_object_fficallback's narrow-result blocks (executed by C03/Interp.v)",
         "C03/CExpr.v: C11 integer-expression semantics on LP64 with gcc's implementation-defined choices",
         "PyLong_AsLongLong / PyLong_AsUnsignedLongLong raise OverflowError exactly outside their ranges (CPython)",
         "gcc as the oracle for sizeof and signedness of each type; little-endian x86-64"]
